@@ -371,7 +371,7 @@ def power_divergence(X, Y, Z, data, boolean=True, lambda_="cressie-read", **kwar
     # Step 2: Do a simple contingency test if there are no conditional variables.
     if len(Z) == 0:
         chi, p_value, dof, expected = stats.chi2_contingency(
-            data.groupby([X, Y], observed=False).size().unstack(Y, fill_value=0),
+            data.groupby([X, Y], observed=True).size().unstack(Y, fill_value=0),
             lambda_=lambda_,
         )
 
